@@ -99,8 +99,37 @@ fn out_json(r: Result<Vec<Value>, String>) -> Value {
     }
 }
 
+/// an `io::Write` that takes at most three bytes per call (which the contract of `write` allows: a serializer has to use `write_all`)
+struct Trickle(std::rc::Rc<std::cell::RefCell<Vec<u8>>>);
+impl std::io::Write for Trickle {
+    fn write(&mut self, data: &[u8]) -> std::io::Result<usize> {
+        let n = data.len().min(3);
+        self.0.borrow_mut().extend_from_slice(&data[..n]);
+        Ok(n)
+    }
+    fn flush(&mut self) -> std::io::Result<()> {
+        Ok(())
+    }
+}
+
 fn round_trip(d: &[Q], ser: &str, parser: &str) -> Value {
+    // every other dataset is written to a target that accepts a few bytes at a time
+    let trickle = d.len() % 2 == 1;
     let text: Result<String, String> = guarded(|| match ser {
+        "nt" if trickle => {
+            let buf = std::rc::Rc::new(std::cell::RefCell::new(vec![]));
+            let mut s = NtSerializer::new(Trickle(buf.clone()));
+            s.serialize_triples(d.iter().map(|q| q.0.clone()).map(Ok::<_, std::convert::Infallible>)).map_err(|e| e.to_string())?;
+            let text = String::from_utf8_lossy(&buf.borrow()).to_string();
+            Ok(text)
+        }
+        _ if trickle => {
+            let buf = std::rc::Rc::new(std::cell::RefCell::new(vec![]));
+            let mut s = NqSerializer::new(Trickle(buf.clone()));
+            s.serialize_quads(d.iter().cloned().map(Ok::<_, std::convert::Infallible>)).map_err(|e| e.to_string())?;
+            let text = String::from_utf8_lossy(&buf.borrow()).to_string();
+            Ok(text)
+        }
         "nt" => {
             let mut s = NtSerializer::new_stringifier();
             s.serialize_triples(d.iter().map(|q| q.0.clone()).map(Ok::<_, std::convert::Infallible>)).map_err(|e| e.to_string())?;
